@@ -232,11 +232,120 @@ theorem pushUnchecked_spec (dbg : Bool) (b : Bitmap) (h : b.WF) (v : Nat) (hv : 
       · have := hlt d hd; omega
       · simp at hd; subst hd; exact h3
 
+/-- inherent.rs `max`: the last value of the last container -/
+theorem max?_eq (b : Bitmap) (h : b.WF) : max? b = (elems b).getLast? := by
+  unfold max?
+  cases hlast : b.getLast? with
+  | none =>
+    have : b = [] := List.getLast?_eq_none_iff.mp hlast
+    subst this; rfl
+  | some c =>
+    obtain ⟨init, rfl⟩ := List.getLast?_eq_some_iff.mp hlast
+    obtain ⟨hinit, hlt, hck, hcan, hne⟩ := (wf_snoc_iff init c).mp h
+    simp only []
+    rw [elems_append, elems_single, List.getLast?_append]
+    unfold Container.elems Container.max?
+    rw [List.getLast?_map, Store.max?_spec _ (Store.canon_inv _ hcan)]
+    cases hce : c.store.elems.getLast? with
+    | none => exact absurd (List.getLast?_eq_none_iff.mp hce) hne
+    | some m => simp [join]
+
+/-- the result value of `append` after `count` accepted values -/
+def appendRes (count : Nat) (acc vs : List Nat) : Except Nat Nat :=
+  if acc.length = vs.length then .ok (count + acc.length) else .error (count + acc.length)
+
+theorem appendRes_cons (count v w : Nat) (acc vs : List Nat) :
+    appendRes count (v :: acc) (w :: vs) = appendRes (count + 1) acc vs := by
+  unfold appendRes
+  simp only [List.length_cons]
+  have e : count + (acc.length + 1) = count + 1 + acc.length := by omega
+  by_cases hn : acc.length = vs.length
+  · rw [if_pos hn, if_pos (by omega), e]
+  · rw [if_neg hn, if_neg (by omega), e]
+
+theorem appendLoop_spec (dbg : Bool) : ∀ (vs : List Nat) (b : Bitmap) (prev count : Nat), b.WF →
+    (elems b).getLast? = some prev → (∀ v ∈ vs, v < 4294967296) →
+    ∃ b', appendLoop dbg b prev count vs =
+        some (b', appendRes count (Spec.ascPrefix (some prev) vs) vs) ∧ b'.WF ∧
+      elems b' = elems b ++ Spec.ascPrefix (some prev) vs := by
+  intro vs
+  induction vs with
+  | nil =>
+    intro b prev count h _ _
+    exact ⟨b, by simp [appendLoop, Spec.ascPrefix, appendRes], h, by simp [Spec.ascPrefix]⟩
+  | cons v vs ih =>
+    intro b prev count h hlast hvs
+    unfold appendLoop
+    by_cases hle : v ≤ prev
+    · rw [if_pos hle]
+      have : Spec.ascPrefix (some prev) (v :: vs) = [] := by
+        simp only [Spec.ascPrefix]; rw [if_neg (by omega)]
+      rw [this]; exact ⟨b, by simp [appendRes], h, by simp⟩
+    · rw [if_neg hle]
+      have hmax : ∀ x ∈ elems b, x < v := by
+        intro x hx
+        have := (Arr.getLast?_sorted _ (sorted_elems b h.dir) prev hlast).2 x hx; omega
+      obtain ⟨b1, e1, w1, l1⟩ := pushUnchecked_spec dbg b h v (hvs v (List.mem_cons_self ..)) hmax
+      rw [e1]; simp only []
+      obtain ⟨b', e2, w2, l2⟩ := ih b1 v (count + 1) w1 (by rw [l1]; exact List.getLast?_concat)
+        (fun x hx => hvs x (List.mem_cons_of_mem _ hx))
+      have : Spec.ascPrefix (some prev) (v :: vs) = v :: Spec.ascPrefix (some v) vs := by
+        simp only [Spec.ascPrefix]; rw [if_pos (by omega)]
+      refine ⟨b', ?_, w2, ?_⟩
+      · rw [e2, this, appendRes_cons]
+      · rw [l2, l1, this]; simp
+
 /-- iter.rs `append`: never panics (for either build configuration), accepts exactly the ascending prefix -/
 theorem append_spec (dbg : Bool) (b : Bitmap) (h : b.WF) (vs : List Nat) (hvs : ∀ v ∈ vs, v < 4294967296) :
     ∃ b', append dbg b vs = some (b', (Spec.append (elems b) vs).2) ∧ b'.WF ∧
       elems b' = (Spec.append (elems b) vs).1 := by
-  sorry
+  have hS : ∀ s vs, Spec.append s vs = (s ++ Spec.ascPrefix s.getLast? vs,
+      appendRes 0 (Spec.ascPrefix s.getLast? vs) vs) := by
+    intro s vs; simp [Spec.append, appendRes]
+  rw [hS]
+  cases vs with
+  | nil => exact ⟨b, by simp [append, Spec.ascPrefix, appendRes], h, by simp [Spec.ascPrefix]⟩
+  | cons first rest =>
+    have hf := hvs first (List.mem_cons_self ..)
+    -- the common continuation once `first` is known to be above the maximum
+    have cont : (∀ x ∈ elems b, x < first) →
+        Spec.ascPrefix (elems b).getLast? (first :: rest) = first :: Spec.ascPrefix (some first) rest →
+        ∃ b', (match pushUnchecked dbg b first with
+               | none => none
+               | some b' => appendLoop dbg b' first 1 rest) =
+            some (b', appendRes 0 (Spec.ascPrefix (elems b).getLast? (first :: rest)) (first :: rest)) ∧
+          b'.WF ∧ elems b' = elems b ++ Spec.ascPrefix (elems b).getLast? (first :: rest) := by
+      intro hmax hasc
+      obtain ⟨b1, e1, w1, l1⟩ := pushUnchecked_spec dbg b h first hf hmax
+      rw [e1]; simp only []
+      obtain ⟨b', e2, w2, l2⟩ := appendLoop_spec dbg rest b1 first 1 w1
+        (by rw [l1]; exact List.getLast?_concat) (fun x hx => hvs x (List.mem_cons_of_mem _ hx))
+      refine ⟨b', ?_, w2, ?_⟩
+      · rw [e2, hasc, appendRes_cons]
+      · rw [l2, l1, hasc]; simp
+    unfold append
+    rw [max?_eq b h]
+    cases hlast : (elems b).getLast? with
+    | none =>
+      simp only []
+      rw [hlast] at cont
+      apply cont
+      · have : elems b = [] := List.getLast?_eq_none_iff.mp hlast
+        rw [this]; simp
+      · simp [Spec.ascPrefix]
+    | some m =>
+      simp only []
+      rw [hlast] at cont
+      by_cases hle : first ≤ m
+      · rw [if_pos hle]
+        have : Spec.ascPrefix (some m) (first :: rest) = [] := by
+          simp only [Spec.ascPrefix]; rw [if_neg (by omega)]
+        rw [this]; exact ⟨b, by simp [appendRes], h, by simp⟩
+      · rw [if_neg hle]
+        apply cont
+        · intro x hx
+          have := (Arr.getLast?_sorted _ (sorted_elems b h.dir) m hlast).2 x hx; omega
+        · simp only [Spec.ascPrefix]; rw [if_pos (by omega)]
 
 /-- iter.rs `Extend<u32>` / `FromIterator` -/
 theorem extend_spec (b : Bitmap) (h : b.WF) (vs : List Nat) (hvs : ∀ v ∈ vs, v < 4294967296) :
